@@ -727,7 +727,8 @@ func ParseCounterStyleName(tokens []pa.Token, cs counters.CounterStyle) string {
 
 	token := tokens[0]
 	if ident, ok := token.(pa.Ident); ok {
-		if v := utils.AsciiLower(ident.Value); v == "decimal" || v == "disc" {
+		if v := utils.AsciiLower(ident.Value); v == "decimal" || v == "disc" || v == "square" || v == "circle" || v == "disclosure-open" || v == "disclosure-closed" {
+			// non-overridable counter-style names : only the first (user agent) definition is kept
 			if _, ok := cs[v]; !ok {
 				return ident.Value
 			}
